@@ -329,7 +329,72 @@ def r18_8(ctx):
     ctx.floor('R18.8', '__neg__ implementations of the tensor / operator classes', n, 4)
 
 
+def r18_9(ctx):
+    """One representation of a Kronecker term: methods of CanonicalOperator that concatenate a term with a tuple
+    (`(-t[0],) + t[1:]`) need every term to BE a tuple.  Either the constructor normalises (`tuple(t) for t in terms`) or
+    every construction site in the package hands it tuples; a site that passes lists makes negation and subtraction of that
+    operator raise TypeError."""
+    cls = ctx.prog.cls(T + '.CanonicalOperator')
+    init = cls.methods.get('__init__')
+    # consumers: tuple literal + (slice of) a term variable bound by iterating self.terms
+    consumers = []
+    for name, m in cls.methods.items():
+        for c in ast.walk(m.node):
+            if isinstance(c, (ast.GeneratorExp, ast.ListComp)):
+                tv = {g.target.id for g in c.generators if isinstance(g.target, ast.Name) and src(g.iter).endswith('.terms')}
+                for b in ast.walk(c.elt):
+                    if isinstance(b, ast.BinOp) and isinstance(b.op, ast.Add):
+                        for lit, oth in ((b.left, b.right), (b.right, b.left)):
+                            if isinstance(lit, ast.Tuple) and any(isinstance(x, ast.Name) and x.id in tv for x in ast.walk(oth)) \
+                                    and not (isinstance(oth, ast.Call) and call_name(oth) == 'tuple'):
+                                consumers.append((m, b))
+    if not consumers:
+        ctx.met('R18.9', cls.qual, 'no method concatenates a term with a tuple', cls.node, 'any sequence works as a term')
+        return
+    normalises = init is not None and any(
+        isinstance(s_, ast.Assign) and src(s_.targets[0]) == 'self.terms' and any(
+            isinstance(c, ast.Call) and call_name(c) == 'tuple' for c in ast.walk(s_.value))
+        for s_ in own_nodes(init.node))
+    if normalises:
+        ctx.met('R18.9', init.qual, 'the constructor stores every term as a tuple', init.node,
+                'consumers such as `%s` may concatenate' % src(consumers[0][1]))
+        return
+    n = 0
+    for unit in ctx.prog.units.values():
+        if not unit.modname.startswith('pyiga') or unit.lang != 'py':
+            continue
+        for fi in ctx.prog.funcs_in(unit.modname, include_nested=True):
+            for c in ast.walk(fi.node):
+                if not (isinstance(c, ast.Call) and (call_name(c) or '').split('.')[-1] == 'CanonicalOperator' and c.args):
+                    continue
+                a = c.args[0]
+                elts = []
+                if isinstance(a, (ast.List, ast.Tuple)):
+                    elts = a.elts
+                elif isinstance(a, (ast.ListComp, ast.GeneratorExp)):
+                    elts = [a.elt]
+                else:
+                    continue
+                n += 1
+                for e in elts:
+                    is_tuple = isinstance(e, ast.Tuple) or (isinstance(e, ast.Call) and call_name(e) in ('tuple', '_alldot')) or \
+                        (isinstance(e, ast.BinOp) and any(isinstance(x, ast.Tuple) or (isinstance(x, ast.Call) and call_name(x) == 'tuple')
+                                                          for x in (e.left, e.right)))
+                    is_list = isinstance(e, (ast.List, ast.ListComp))
+                    if is_list:
+                        ctx.violated('R18.9', fi.qual, src(c)[:100], c,
+                                     'this site builds an operator whose terms are LISTS, but %s computes `%s`: negating or subtracting such an '
+                                     'operator raises TypeError (tuple + list); the constructor does not normalise the terms'
+                                     % (consumers[0][0].qual.split('.')[-1], src(consumers[0][1])))
+                    elif is_tuple:
+                        ctx.met('R18.9', fi.qual, src(c)[:100], c, 'terms are tuples')
+                    else:
+                        ctx.undecided('R18.9', fi.qual, src(c)[:100], c, 'type of the term containers not recognised')
+    ctx.floor('R18.9', 'CanonicalOperator construction sites', n, 4)
+
+
 def run(ctx):
+    r18_9(ctx)
     r18_8(ctx)
     r18_1(ctx)
     r18_2(ctx)
